@@ -12,6 +12,7 @@ RULE = (
     "tables; every nearest-neighbour pair for the Gray clause; Gray utilities on all n<2^16 (exhaustive) and seeded n<2^60, scalar, list and tensor forms. "
     "Distinct = (scheme configuration, clause) / integer n; non-trivial = n>0 or a constructed constellation."
     " Added after the seeded-fault rounds: array forms with values up to 2^50 (lists, int64, float64)."
+    " Round 5: modem form axis (deep copy, .double().float(), state_dict twin)."
 )
 ASSUMPTIONS = ["nearest neighbours are pairs at distance <= d_min*(1+1e-4)", "energy tolerance 1e-5 (float32 tables)", "DPSK-type schemes are judged on their phase-increment constellation, pi/4-QPSK on each of its two alternating constellations, OQPSK per branch"]
 REQUIRED = ["bijective labelling", "unit mean energy", "gray:neighbours differ in one bit", "published tables = effective mapping", "gray_utils:roundtrip", "gray_utils:consecutive distance 1", "gray_utils:injective", "gray_utils:array=scalar"]
